@@ -29,32 +29,51 @@ Definition end_code (e : rerrs) : N :=
 
 Definition place_aliased (p : place) : bool := match p with PInPlace => true | _ => false end.
 
-(** Settle the close system: fire the first enabled system rule until none is. *)
-Fixpoint settle (fuel : nat) (s : cstate) : cstate :=
+(** Settle the close system: fire the first enabled rule that needs no
+    further writes until none is. *)
+Fixpoint settle (p : policy) (fuel : nat) (s : cstate) : cstate :=
   match fuel with
   | O => s
   | S f =>
-      match filter (fun r => enabled r s) system_rules with
+      match filter (fun r => enabled p r s) read_rules with
       | [] => s
-      | r :: _ => settle f (fire r s)
+      | r :: _ => settle p f (fire p r s)
       end
+  end.
+
+(** The policy of the code under test; the legacy tunnel has no CloseWrite,
+    so a half-closing JoinConn still closes it. *)
+Definition corr_policy (mode : N) : policy :=
+  match mode with
+  | 0 => CloseBoth
+  | _ => close_policy_of gen_join_defer_calls gen_closeall_calls
+  end.
+
+(** Reads issued after the first end, one result code each. *)
+Fixpoint later_reads (n : nat) (s : sstate) : list N :=
+  match n with
+  | O => []
+  | S n' =>
+      let '(_, e, s', _) := side_read 4096 [] s in
+      end_code e :: match e with SBlock => [] | _ => later_reads n' s' end
   end.
 
 Inductive scase :=
 | KWrite (sizes : list N) (close_write : bool) (ns : list N) (frames : list (N * N))
-| KRead (script : list msg) (bufs : list N) (total : N) (ended : N)
+| KRead (script : list msg) (bufs : list N) (total : N) (ended : N) (later : list N)
 | KReply (cap len : N) (ok : bool) (n : N) (aliased : bool)
 | KPipe (writes reads chunks : list N)
-| KClose (client_closes : bool) (other_read_ended : bool).
+| KClose (mode : N) (client_closes : bool) (first_ended later_ended : bool).
 
 Definition check_case (c : scase) : bool :=
   match c with
   | KWrite sizes cw ns frames =>
       list_eqb N.eqb (model_write_ns sizes) ns &&
       list_eqb pair_eqb (model_write_frames sizes cw) frames
-  | KRead script bufs total ended =>
-      let '(outs, e, _) := side_reads bufs [] (mkS None script) in
-      (sumN (map lenN outs) =? total) && (end_code e =? ended)
+  | KRead script bufs total ended later =>
+      let '(outs, e, s') := side_reads bufs [] (mkS None script) in
+      (sumN (map lenN outs) =? total) && (end_code e =? ended) &&
+      list_eqb N.eqb (later_reads (List.length later) s') later
   | KReply cap len ok n aliased =>
       if cap <? len then negb ok
       else ok && (n =? len) &&
@@ -62,10 +81,12 @@ Definition check_case (c : scase) : bool :=
   | KPipe writes reads chunks =>
       let '(outs, _) := pipe_reads reads (map zeros writes) in
       list_eqb N.eqb (map lenN outs) chunks
-  | KClose client_closes ended =>
-      let s0 := fire (if client_closes then EClientClose else EAppClose) cinit in
-      let s := settle 16 s0 in
-      Bool.eqb (if client_closes then ra s else rc s) ended
+  | KClose mode client_closes first_ended later_ended =>
+      let p := corr_policy mode in
+      let s0 := fire p (if client_closes then EClientClose else EAppClose) cinit in
+      let s := settle p 16 s0 in
+      Bool.eqb (if client_closes then ra s else rc s) first_ended &&
+      Bool.eqb (if client_closes then ra2 s else rc2 s) later_ended
   end.
 
 Fixpoint mismatches_from (i : nat) (cs : list scase) : list nat :=
